@@ -83,10 +83,38 @@ func checkC07(cx *Ctx, r *Report) {
 		}
 		okDefault := false
 		why := "no store of the DEFLATE identifier into " + ex.form + ".Encoding"
+		// the extractor itself, or a parser of its package it shares with its sibling and whose Encoding it copies
+		// (`form, err := parseSAMLRequestForm(r); ...; Encoding: form.Encoding`)
+		type encStore struct {
+			st    *ssa.Store
+			owner string
+		}
+		var cands []encStore
 		for _, st := range fx.info(fn).stores {
-			fa, ok := st.Addr.(*ssa.FieldAddr)
-			if !ok || fieldOwner(fa.X.Type()) != ex.form || fname(fieldVar(fa.X.Type(), fa.Field)) != "Encoding" {
-				continue
+			if fa, ok := st.Addr.(*ssa.FieldAddr); ok && fieldOwner(fa.X.Type()) == ex.form && fname(fieldVar(fa.X.Type(), fa.Field)) == "Encoding" {
+				cands = append(cands, encStore{st, ex.form})
+				// the value copied from another form object: the stores into that object's Encoding count
+				if ld, isLd := st.Val.(*ssa.UnOp); isLd {
+					if fa2, isFA := ld.X.(*ssa.FieldAddr); isFA && fname(fieldVar(fa2.X.Type(), fa2.Field)) == "Encoding" {
+						owner2 := fieldOwner(fa2.X.Type())
+						for g := range w.scopeOf(fn) {
+							if g.Pkg != fn.Pkg {
+								continue
+							}
+							for _, st2 := range fx.info(g).stores {
+								if fa3, ok3 := st2.Addr.(*ssa.FieldAddr); ok3 && fieldOwner(fa3.X.Type()) == owner2 && fname(fieldVar(fa3.X.Type(), fa3.Field)) == "Encoding" {
+									cands = append(cands, encStore{st2, owner2})
+								}
+							}
+						}
+					}
+				}
+			}
+		}
+		for _, cand := range cands {
+			st := cand.st
+			{
+				_ = st
 			}
 			if cs, ok := constString(st.Val); !ok || "const:"+cs != cDeflate {
 				continue
